@@ -342,10 +342,19 @@ impl Mappable for ElementValue {
 		use ElementValue::*;
 		Ok(match self {
 			Object(x) => Object(x),
-			Enum { type_name, const_name } => Enum {
-				type_name: type_name.remap(remapper)?,
-			// TODO: this one needs remapping!
-				const_name,
+			Enum { type_name, const_name } => {
+				// an enum constant is a field of the enum class whose descriptor is the enum type
+				let const_name = match type_name.parse()?.0 {
+					duke::tree::descriptor::Type::Object(enum_class) => {
+						let field_name = duke::tree::field::FieldName::try_from(const_name)?;
+						remapper.map_field(&enum_class, &field_name, &type_name)?.name.into_inner()
+					},
+					_ => const_name,
+				};
+				Enum {
+					type_name: type_name.remap(remapper)?,
+					const_name,
+				}
 			},
 			Class(class_name) => Class(remapper.map_return_desc(&class_name)?),
 			AnnotationInterface(annotation) => AnnotationInterface(annotation.remap(remapper)?),
